@@ -3,6 +3,7 @@ package refmodel
 import (
 	"github.com/hashicorp/hcl/v2"
 	"github.com/hashicorp/hcl/v2/hclsyntax"
+	"github.com/zclconf/go-cty/cty"
 
 	m "verif/harness/model"
 )
@@ -123,6 +124,11 @@ func locateIn(bc *BodyCtx, off int) Loc {
 	loc := Loc{BC: bc, Kind: "bodyWhitespace", LabelIdx: -1}
 	for _, a := range bc.Body.Attributes {
 		er := a.Expr.Range()
+		if lv, ok := a.Expr.(*hclsyntax.LiteralValueExpr); ok && lv.Val == cty.DynamicVal && er.End.Line > er.Start.Line && er.End.Byte > 0 {
+			// the range of an empty value runs up to the start of the next line,
+			// which belongs to the body (or the next item), not to the value
+			er.End.Byte--
+		}
 		switch {
 		case off >= a.NameRange.Start.Byte && off <= a.NameRange.End.Byte:
 			loc.Kind, loc.Attr = "attrName", a
